@@ -33,6 +33,9 @@ type toolCase struct {
 	// (every rune of categories L and M as a one-rune word and after a base letter).
 	Kind  string                  `json:"kind"`
 	Files map[string]gen.WordFile `json:"files,omitempty"` // upstream name (e.g. "english") -> file
+	// Before: if present, the tool is first run on these files in the same directory, so the run
+	// under test overwrites existing (possibly longer) outputs, as every real update does.
+	Before map[string]gen.WordFile `json:"before,omitempty"`
 }
 
 // in-process upstream server: /<case id>/<name>.txt
@@ -71,6 +74,11 @@ var toolSeq int
 
 // runTool runs the generator in a scratch directory against the given upstream files.
 func runTool(files map[string][]byte) (outDir string, cleanup func(), err error) {
+	return runToolIn("", files)
+}
+
+// runToolIn runs the tool in dir (a fresh scratch directory when empty).
+func runToolIn(dir string, files map[string][]byte) (outDir string, cleanup func(), err error) {
 	tool := os.Getenv("VERIF_TOOL")
 	if tool == "" {
 		harnessError("c17: VERIF_TOOL not set")
@@ -83,7 +91,9 @@ func runTool(files map[string][]byte) (outDir string, cleanup func(), err error)
 	toolSeq++
 	id := fmt.Sprintf("c%d-%d", os.Getpid(), toolSeq)
 	upstream.Unlock()
-	dir := filepath.Join(work, "tool-"+id)
+	if dir == "" {
+		dir = filepath.Join(work, "tool-"+id)
+	}
 	outDir = filepath.Join(dir, "internal", "wordlist")
 	if err := os.MkdirAll(outDir, 0o755); err != nil {
 		harnessError("c17: %v", err)
@@ -255,9 +265,23 @@ var c17Check = register("C17", "c17.tool", func(c *toolCase) error {
 	default:
 		harnessError("c17: unknown kind %q", c.Kind)
 	}
-	outDir, cleanup, err := runTool(files)
-	defer cleanup()
 	sig := "C17 " + c.Kind
+	dir := ""
+	if len(c.Before) > 0 {
+		before := map[string][]byte{}
+		for l := ref.Lang(0); l < ref.NumLangs; l++ {
+			before[l.File()] = []byte(c.Before[l.File()].Content())
+		}
+		bdir, bclean, berr := runTool(before)
+		defer bclean()
+		if berr != nil {
+			return failf(sig+" tool-failed", "first run: %v", berr)
+		}
+		dir = filepath.Dir(filepath.Dir(bdir))
+		sig += " rerun"
+	}
+	outDir, cleanup, err := runToolIn(dir, files)
+	defer cleanup()
 	if err != nil {
 		return failf(sig+" tool-failed", "%v", err)
 	}
@@ -344,7 +368,7 @@ func compileGenerated(outDir string) error {
 	return nil
 }
 
-const c17Rule = "C17: the update-wordlist binary, built from /repo with the verif hook, is run in a scratch directory against ten rapid-generated upstream files per case (a different list per target; 0..3000 lines of 1..12 letters/marks in Latin+diacritics, Han, kana+voicing marks, Hangul, golden words, arbitrary L/M runes; blank lines at start/middle/end; final newline present or absent), served by a loopback HTTP server; plus the canonical lists; plus an alphabet case containing every rune of categories L and M alone and after a base letter. Oracle (round trip): every output parses, the ten type-check as one package, each declares the variable lang.go consumes, and its elements equal the non-empty input lines byte for byte in order; canonical run equals the committed sources and the API's lists. Non-trivial: a file with a blank line, or without final newline, or with non-ASCII words; distinct by content"
+const c17Rule = "C17: the update-wordlist binary, built from /repo with the verif hook, is run in a scratch directory against ten rapid-generated upstream files per case (a different list per target; 0..3000 lines of 1..12 letters/marks in Latin+diacritics, Han, kana+voicing marks, Hangul, golden words, arbitrary L/M runes; blank lines at start/middle/end; final newline present or absent), served by a loopback HTTP server, one case in three as a re-run over the (often longer) output of an earlier run in the same directory; plus the canonical lists (fresh directory and over an earlier run); plus an alphabet case containing every rune of categories L and M alone and after a base letter. Oracle (round trip): every output parses, the ten type-check as one package, each declares the variable lang.go consumes, and its elements equal the non-empty input lines byte for byte in order; canonical run equals the committed sources and the API's lists. Non-trivial: a file with a blank line, or without final newline, or with non-ASCII words; distinct by content"
 
 func c17Record(c *toolCase) {
 	cov.Eval(1)
@@ -400,6 +424,19 @@ func TestC17_Tool(t *testing.T) {
 			cov.Sample("c17.tool", c)
 			judge(t, "c17.tool", c17Check, c)
 		}
+		// canonical lists regenerated over the output of an earlier run with longer files
+		long := map[string]gen.WordFile{}
+		for l := ref.Lang(0); l < ref.NumLangs; l++ {
+			lines := append([]string{}, ref.Golden(l)...)
+			for i := 0; i < 300; i++ {
+				lines = append(lines, ref.Golden(l)[i]+"x")
+			}
+			long[l.File()] = gen.WordFile{Lines: lines, FinalNewline: true}
+		}
+		c := &toolCase{Kind: "canonical", Before: long}
+		c17Record(c)
+		cov.Class("rerun-over-existing-output")
+		judge(t, "c17.tool", c17Check, c)
 		cov.Exhaustive("every rune of Unicode categories L and M as a one-rune word and after a base letter")
 	}
 	k := 0
@@ -407,6 +444,19 @@ func TestC17_Tool(t *testing.T) {
 		c := &toolCase{Kind: "files", Files: map[string]gen.WordFile{}}
 		for l := ref.Lang(0); l < ref.NumLangs; l++ {
 			c.Files[l.File()] = gen.WordFileGen().Draw(rt, l.File())
+		}
+		if rapid.IntRange(0, 2).Draw(rt, "rerun") == 0 {
+			// an earlier run left files behind: typically longer ones (the committed lists are 2048 words)
+			c.Before = map[string]gen.WordFile{}
+			for l := ref.Lang(0); l < ref.NumLangs; l++ {
+				wf := gen.WordFileGen().Draw(rt, "before-"+l.File())
+				if rapid.Bool().Draw(rt, "longer") {
+					wf.Lines = append(wf.Lines, c.Files[l.File()].Lines...)
+					wf.Lines = append(wf.Lines, "extra", "words", "follow")
+				}
+				c.Before[l.File()] = wf
+			}
+			cov.Class("rerun-over-existing-output")
 		}
 		c17Record(c)
 		if k++; k == 3 {
